@@ -426,6 +426,12 @@ def main():
     chk.extra["concurrent_requests"] = concurrent_stress(chk, work, refs, 3 if t == "quick" else 25)
     os.environ.pop("BLDFM_VERIF_TRACE", None)
     validate_cache_trace(chk, tracefile)
+    if t == "thorough":
+        from . import repo_tests
+
+        tf, tail = repo_tests.record()
+        chk.extra["repo_tests_pytest"] = tail
+        chk.traces += repo_tests.cache_events(chk, tf)
     for l in logs[:: max(1, len(logs) // 3)][:3]:
         chk.sample(l)
     chk.assumptions += ["a process boundary is a fresh cache object on the same directory (the cache keeps nothing in memory)",
